@@ -39,8 +39,72 @@ pub mod shims {
     #[verifier::external_body]
     pub fn opt_as_str<'a>(o: Option<&'a String>) -> (r: Option<&'a str>)
         ensures match r { Some(s) => o matches Some(t) && s@ == t@, None => o is None } { unimplemented!() }
-    // ---- the input sources: the trimmed content of a file, or one trimmed line of the standard input
-    pub uninterp spec fn line_of(path: Option<String>) -> Seq<char>;
+    // ---- the input sources: the content of a file, and the lines of the standard input that have not been read yet.
+    // The standard input is a stream shared by every reader of the process: a line taken from it, by a direct read or
+    // into the buffer of a BufReader, is gone for the others.
+    pub uninterp spec fn file_text(path: Seq<char>) -> Seq<char>;
+    pub tracked struct World {
+        pub ghost stdin: Seq<Seq<char>>,   // the lines (each with its end of line) still to come
+    }
+    pub open spec fn first_line(l: Seq<Seq<char>>) -> Seq<char> { if l.len() > 0 { l[0] } else { Seq::empty() } }
+    pub open spec fn after_first(l: Seq<Seq<char>>) -> Seq<Seq<char>> { if l.len() > 0 { l.skip(1) } else { l } }
+    pub struct File { pub path: Ghost<Seq<char>> }
+    impl File {
+        #[verifier::external_body]
+        pub fn open(p: &String) -> (r: std::result::Result<File, IoError>) ensures r matches Ok(f) ==> f.path@ == p@ { unimplemented!() }
+        // Read::read_to_string: the whole content is appended
+        #[verifier::external_body]
+        pub fn read_to_string(&mut self, buf: &mut String) -> (r: std::result::Result<usize, IoError>)
+            ensures r is Ok ==> final(buf)@ == old(buf)@ + file_text(old(self).path@), final(self).path == old(self).path { unimplemented!() }
+    }
+    pub struct Stdin { pub x: u8 }
+    pub mod io {
+        use vstd::prelude::*;
+        verus! {
+        pub use super::BufReader;
+        #[verifier::external_body]
+        pub fn stdin() -> super::Stdin { unimplemented!() }
+        }
+    }
+    impl Stdin {
+        // Stdin::read_line: exactly the next line is taken from the stream and appended (nothing at end of input)
+        #[verifier::external_body]
+        pub fn read_line(&self, buf: &mut String, Tracked(w): Tracked<&mut World>) -> (r: std::result::Result<usize, IoError>)
+            ensures r is Ok ==> final(buf)@ == old(buf)@ + first_line(old(w).stdin) && final(w).stdin == after_first(old(w).stdin),
+                    r is Err ==> final(w).stdin == old(w).stdin { unimplemented!() }
+    }
+    // Stdin::lock(): the same shared stream (the process-wide buffer), so nothing is lost between two readers
+    pub struct StdinLock { pub x: u8 }
+    impl Stdin {
+        #[verifier::external_body]
+        pub fn lock(&self) -> StdinLock { unimplemented!() }
+    }
+    impl StdinLock {
+        #[verifier::external_body]
+        pub fn read_line(&mut self, buf: &mut String, Tracked(w): Tracked<&mut World>) -> (r: std::result::Result<usize, IoError>)
+            ensures r is Ok ==> final(buf)@ == old(buf)@ + first_line(old(w).stdin) && final(w).stdin == after_first(old(w).stdin),
+                    r is Err ==> final(w).stdin == old(w).stdin { unimplemented!() }
+    }
+    // BufReader over the standard input: what it has taken from the stream and not handed out yet stays in ITS buffer
+    // (lost to every other reader, and lost for good when the BufReader is dropped). How much a fill takes is not specified:
+    // at least the line asked for, possibly everything that is there.
+    pub struct BufReader<R> { pub inner: R, pub buffered: Ghost<Seq<Seq<char>>> }
+    impl BufReader<Stdin> {
+        #[verifier::external_body]
+        pub fn new(inner: Stdin) -> (r: Self) ensures r.buffered@.len() == 0 { unimplemented!() }
+        #[verifier::external_body]
+        pub fn read_line(&mut self, buf: &mut String, Tracked(w): Tracked<&mut World>) -> (r: std::result::Result<usize, IoError>)
+            ensures
+                r is Ok && old(self).buffered@.len() > 0 ==> final(buf)@ == old(buf)@ + old(self).buffered@[0]
+                    && final(self).buffered@ == old(self).buffered@.skip(1) && final(w).stdin == old(w).stdin,
+                r is Ok && old(self).buffered@.len() == 0 ==> final(buf)@ == old(buf)@ + first_line(old(w).stdin),
+                r is Ok && old(self).buffered@.len() == 0 && old(w).stdin.len() == 0 ==> final(w).stdin == old(w).stdin && final(self).buffered@.len() == 0,
+                r is Ok && old(self).buffered@.len() == 0 && old(w).stdin.len() > 0 ==>
+                    (exists|k: int| 1 <= k <= old(w).stdin.len() && final(w).stdin == old(w).stdin.skip(k)
+                            && final(self).buffered@ == old(w).stdin.subrange(1, k)),
+                r is Err ==> final(w).stdin == old(w).stdin
+        { unimplemented!() }
+    }
     pub mod acme_common {
         use vstd::prelude::*;
         verus! {
